@@ -1,0 +1,47 @@
+//go:build verif
+
+package cipher
+
+import "time"
+
+// Exports for the external verification harness (property C09). Add-only; compiled only with -tags verif.
+
+// VerifC09KeysAt runs the real key derivation (newBlockCipherList: saltFromTime + pbkdf2Gen)
+// for an explicit instant, without the process-wide cache, and returns the three keys.
+func VerifC09KeysAt(hashedPassword []byte, now time.Time) ([][]byte, error) {
+	list, err := newBlockCipherList(hashedPassword, now)
+	if err != nil {
+		return nil, err
+	}
+	var keys [][]byte
+	for _, c := range list {
+		keys = append(keys, append([]byte(nil), c.key[:]...))
+	}
+	return keys, nil
+}
+
+// VerifC09BlockCipherAt returns cipher number idx (0: previous slot, 1: current, 2: next) of the
+// list derived for the explicit instant, in implicit-nonce (TCP) or stateless (UDP) mode, with
+// the given user name in its block context (the user hint is derived from it).
+func VerifC09BlockCipherAt(hashedPassword []byte, now time.Time, idx int, implicitNonce bool, user string) (BlockCipher, error) {
+	list, err := newBlockCipherList(hashedPassword, now)
+	if err != nil {
+		return nil, err
+	}
+	c := list[idx]
+	c.enableImplicitNonce = implicitNonce
+	c.ctx = BlockContext{UserName: user}
+	return c, nil
+}
+
+// VerifC09AddUserHint applies addUserHintToNonce to a copy of nonce.
+func VerifC09AddUserHint(user string, nonce []byte) []byte {
+	c := &aeadBlockCipher{ctx: BlockContext{UserName: user}}
+	return c.addUserHintToNonce(append([]byte(nil), nonce...))
+}
+
+// VerifC09CipherKey returns the key of a block cipher.
+func VerifC09CipherKey(b BlockCipher) []byte {
+	c := b.(*aeadBlockCipher)
+	return append([]byte(nil), c.key[:]...)
+}
